@@ -473,13 +473,18 @@ double gen_number(Rng &r, bool allow_nonfinite, bool plain) {
             static const double scale[] = {1e-20, 1e-300, 1e-17, 5e-324, 1e-9};
             return (double)r.range(-4, 4) * scale[r.below(5)];
         }
-        if (r.chance(1, 12)) {  // whole numbers beyond the int range and at its ends (pairwise different by far more than an epsilon)
-            static const double big[] = {3000000000.0, 10000000000.0, 20000000000.0, -3000000000.0, -10000000000.0, 4294967296.0, 2147483648.0, 2147483647.0,
-                                         -2147483648.0, -2147483647.0, -2147483649.0, 1099511627776.0, 4503599627370496.0, -4503599627370496.0,
-                                         9223372036854775808.0, -9223372036854775808.0, 18446744073709551616.0,
-                                         // magnitudes whose sum or product overflows a double
-                                         1e308, 1.5e308, 1.25e308, 9e307, -1.2e308, -9e307, 1.7976931348623157e308, -1.7976931348623157e308};
-            return big[r.below(25)];
+        if (r.chance(1, 14)) {  // whole numbers beyond the int range (pairwise different by far more than an epsilon; x2, x3, x0.5 stay beyond it)
+            static const double big[] = {3000000000.0, 10000000000.0, 20000000000.0, -3000000000.0, -10000000000.0, 4294967296.0, 1099511627776.0,
+                                         4503599627370496.0, -4503599627370496.0, 6000000000.0, -6000000000.0};
+            return big[r.below(11)];
+        }
+        if (r.chance(1, 24)) {  // the ends of the int range and of the 64-bit types
+            static const double edge[] = {2147483648.0, 2147483647.0, -2147483648.0, -2147483647.0, -2147483649.0, 9223372036854775808.0, -9223372036854775808.0, 18446744073709551616.0};
+            return edge[r.below(8)];
+        }
+        if (r.chance(1, 24)) {  // magnitudes whose sum or product overflows a double
+            static const double huge[] = {1e308, 1.5e308, 1.25e308, 9e307, -1.2e308, -9e307, 1.7976931348623157e308, -1.7976931348623157e308};
+            return huge[r.below(8)];
         }
         switch (r.below(4)) {
             case 0: return (double)r.range(-20, 20);
@@ -597,7 +602,7 @@ MVal *gen_value(Rng &r, const GenOpts &o, int depth) {
     MVal *m = mv_new(obj ? T_OBJECT : T_ARRAY);
     size_t n = (size_t)r.below((uint64_t)o.max_kids + 1);
     if (r.chance(1, 30)) n += (size_t)r.below(30);
-    else if (depth <= 1 && r.chance(1, 60)) n = 33 + (size_t)r.below(100);   // wide containers: beyond the sizes (32, 64, 128) a threshold could sit at
+    else if (depth <= 1 && r.chance(1, 150)) n = 33 + (size_t)r.below(r.chance(1, 4) ? 100 : 36);   // wide containers: beyond the sizes (32, 64, 128) a threshold could sit at
     for (size_t i = 0; i < n; i++) {
         MVal *k = gen_value(r, o, depth + 1);
         if (obj) {
